@@ -5,17 +5,21 @@
 # the outcome in seeded/<id>/result.txt and seeded/RESULTS.tsv.
 # Never commits anything in /repo.
 cd "$(dirname "$0")/.." || exit 2
-[ -n "$(git -C /repo status --porcelain)" ] && { echo "/repo working tree not clean"; exit 2; }
+# SEED_REPO: where the change is applied (default /repo itself; a scratch worktree of
+# /repo's HEAD may be given so that contract editing in /repo can go on meanwhile)
+R="${SEED_REPO:-/repo}"
+[ "$R" != /repo ] && export VERIF_REPO="$R"
+[ -n "$(git -C "$R" status --porcelain)" ] && { echo "$R working tree not clean"; exit 2; }
 ids="$*"; [ -z "$ids" ] && ids=$(ls seeded | grep -v RESULTS | sort)
 for id in $ids; do
   d=seeded/$id
   [ -f "$d/patch.diff" ] || continue
   prop=$(python3 -c "import json,sys;print(json.load(open('$d/meta.json'))['property'])")
   extra=$(python3 -c "import json,sys;print(' '.join(json.load(open('$d/meta.json')).get('also_check',[])))")
-  if ! git -C /repo apply --check "$PWD/$d/patch.diff" 2>/dev/null; then
+  if ! git -C "$R" apply --check "$PWD/$d/patch.diff" 2>/dev/null; then
     echo "$id	$prop	PATCH-DOES-NOT-APPLY" | tee "$d/result.txt"; continue
   fi
-  git -C /repo apply "$PWD/$d/patch.diff"
+  git -C "$R" apply "$PWD/$d/patch.diff"
   out=""; caught=MISSED
   for p in $prop $extra; do
     o=$(VERIF_NO_EVIDENCE=1 ./check "$p" quick 2>&1); rc=$?
@@ -25,7 +29,7 @@ for id in $ids; do
 [$p rc=$rc]
 $(echo "$o" | grep -E '^VIOLATION|^KNOWN|FAIL|STALE|error' | cut -c1-400 | head -12)"
   done
-  git -C /repo checkout -- .
+  git -C "$R" checkout -- .
   echo "$id	$prop	$caught" | tee "$d/result.txt"
   echo "$out" >> "$d/result.txt"
 done
